@@ -4,7 +4,7 @@ Each suite drives a `Check` (engine.py) and returns nothing; run_check.py calls 
 """
 import itertools, json
 from core import *
-from engine import Check
+from engine import Check, timed
 from algs import ALGS, obj_value
 import cases as C
 import gen
@@ -95,10 +95,15 @@ def C03(c):
     formats = fmts(c, ["list", "dict_str"], FORMATS)
     ots = fmts(c, [PT, "BinCount"], [PT, "BinCount", "Sums", "Partition", "PartitionAndSums"])
 
+    seen_out = {}
+
     def judge(case, fmt, ot, got, names, ans):
+        seen_out.setdefault((id(case), fmt), {"case": case})[ot] = got
         return J.judge_packing(case, fmt, ot, got, names, ans, drop_zeros=(case["alg"] == "bin_completion"))
 
     c.corr("corpus", corpus("C03"), combos_of(["list"], ots), judge=judge)
+    c.corr("zero-valued-items", [{"alg": a, "vals": [0] * n, "p": {"B": B}} for a in C.PACKERS + ["bin_completion"] for n in (1, 2, 3) for B in (1, 5)],
+           combos_of(["list"], ots), judge=judge)
     ex = C.exhaustive_pack_cases(C.PACKERS, c.n([4, 6], [4, 6, 7]), c.n(4, 5), all_orders_upto=c.n(4, 5))
     c.corr("exhaustive-fit", ex, combos_of(["list"], [PT]), judge=judge)
     c.exhaustive_scopes.append(f"fit heuristics: every arrival order of every multiset of <= {c.n(4,5)} values from 1..B, B in {c.n([4,6],[4,6,7])}")
@@ -112,6 +117,13 @@ def C03(c):
     for case in C.random_pack_cases(rng, C.PACKERS, c.n(30, 300)):
         fr.append(case)
     frac_corr(c, "fractions-fit", fr)
+    # "the reported number of bins equals the number of returned bins", on the implementation's own outputs of the same call
+    for (_, fmt), d in seen_out.items():
+        full, cnt = d.get(PT), d.get("BinCount")
+        if isinstance(full, dict) and "bins" in full and cnt is not None and not J._is_err(cnt):
+            case = d["case"]
+            c.check_direct(case["alg"], dict(case["p"], vals=case["vals"], alg=case["alg"], fmt=fmt, outtype="BinCount"), "bin-count-mismatch",
+                           cnt == len(full["bins"]), cnt, f"BinCount = number of bins of the Partition output = {len(full['bins'])}")
 
 
 def frac_corr(c, stream, cases_):
@@ -175,6 +187,15 @@ def C02(c):
     # complete Karmarkar-Karp with 5 bins and small values: many coinciding partial sums (the combination enumerator's de-duplication matters)
     many = [{"alg": "ckk", "vals": [rng.randint(1, 4) for _ in range(rng.randint(6, 7))], "p": {"k": 5}} for _ in range(c.n(250, 2500))]
     c.corr("ckk-5-bins-small-values", many, combos_of(["list"], ["Sums", PT]), judge=judge)
+    # the recursive searches with 4 bins (5 for short lists) on 7-9 items of small, often tied values: nested levels, pruning of candidate
+    # bins by comparison with the bins fixed before (ties!), improvements of the incumbent by exactly 1
+    four = []
+    for _ in range(c.n(1500, 9000)):
+        a = rng.choice(["snp", "snp", "rnp", "rnp", "ckk"])
+        n = rng.randint(7, 9)
+        hi = rng.choice([10, 16, 20, 40])
+        four.append({"alg": a, "vals": [rng.randint(1, hi) for _ in range(n)], "p": {"k": 5 if (n == 7 and rng.random() < 0.3) else 4}})
+    c.corr("four-bins-ties", four, combos_of(["list"], [PT]), judge=judge)
 
 
 # ------------------------------------------------------------------------------------------------ C04
@@ -266,6 +287,65 @@ def C04(c):
     for e in rnd:
         e["vals"] = [v for v in e["vals"] if v >= 1] or [1]
     c.corr("random", rnd, combos_of(["list"], ots), judge=judge)
+    # the search itself, not only its answer: the sequence of find_bin_completions(x, items, binsize) calls the implementation makes
+    # (recorded by wrapping the function from outside) against the trace of the model (BC.binCompletionT; BCTraceProofs.binCompletionT_fst:
+    # the traced model computes the modelled packing).  A pruning rule or a search order that changes shows here on almost every input
+    # on which the search is entered, long before it shows as a packing with too many bins.
+    import importlib
+    bcm = importlib.import_module("prtpy.packing.bin_completion")
+    tcases = []
+    for _ in range(c.n(300, 3000)):
+        B, vals = gen.hard_bc_case(rng, Bs=(10, 12, 15, 20, 24, 30, 60), nmin=6, nmax=c.n(13, 15))
+        tcases.append((B, [v for v in vals if v >= 1] or [1]))
+    tcases += [(e["p"]["B"], e["vals"]) for e in rnd[: c.n(200, 2000)] if all(v <= e["p"]["B"] for v in e["vals"])]
+    answers = model_query([f"bc_trace B={B} vals={f_nats(vals)}" for B, vals in tcases])
+    before_t = len(c.disagreements)
+    for (B, vals), ans in zip(tcases, answers):
+        calls = []
+        orig = bcm.find_bin_completions
+
+        def rec(x, items, binsize, calls=calls, orig=orig):
+            calls.append([num(x), [num(i) for i in items]])
+            return orig(x, items, binsize)
+
+        def run(B=B, vals=vals):
+            bcm.find_bin_completions = rec
+            try:
+                return prtpy.pack(algorithm=bcm.bin_completion, binsize=B, items=list(vals), outputtype=out.Partition)
+            finally:
+                bcm.find_bin_completions = orig
+        try:
+            r = timed(run)
+            got = r if isinstance(r, dict) else {"bins": sorted(sorted(num(v) for v in b) for b in r), "trace": calls}
+        except Exception as e:      # noqa
+            got = {"error": exc_name(e)}
+        finally:
+            bcm.find_bin_completions = orig
+        c.evaluations += 1
+        if isinstance(got, dict) and got.get("error") == "Timeout":
+            c.call_timeouts += 1
+            continue
+        want = ans if "error" in ans else {"bins": sorted(sorted(b) for b in ans["bins"]), "trace": ans["trace"]}
+        line = f"bc_trace B={B} vals={f_nats(vals)}"
+        c.corr_cases += 1
+        c.stats["search-trace"]["cases"] += 1
+        c.stats["search-trace"]["calls:" + ("0" if not want.get("trace") else "1-5" if len(want["trace"]) <= 5 else "6-20" if len(want["trace"]) <= 20 else ">20")] += 1
+        c.distinct.add(line)
+        if len(want.get("trace", [])) >= 3:
+            c.nontrivial.add(line)
+        if got != want:
+            c.disagreements.append({"stream": "search-trace", "alg": "bin_completion", "case": {"vals": vals, "p": {"B": B}}, "fmt": "list", "outtype": PT,
+                                    "impl": got, "model": want, "request": line})
+        c.sample({"request": line, "impl": got, "model": want})
+    if len(c.disagreements) > before_t:
+        # failing-input search: the search differs from the modelled one; look for an input on which the answer is wrong, among inputs on
+        # which the search is entered and that are as long as the verified oracle allows
+        more = []
+        for _ in range(c.n(2500, 12000)):
+            B, vals = gen.hard_bc_case(rng, Bs=(10, 12, 15, 20, 24, 30, 60), nmin=10, nmax=c.n(13, 14))
+            more.append({"alg": "bin_completion", "vals": [v for v in vals if v >= 1] or [1], "p": {"B": B}})
+        more += [{"alg": "bin_completion", "vals": d["case"]["vals"], "p": {"B": d["case"]["p"]["B"]}} for d in c.disagreements[before_t:][:300]]
+        c.corr("search-after-trace-difference", more, combos_of(["list"], [PT]), judge=judge)
 
 
 # ------------------------------------------------------------------------------------------------ C06
@@ -290,6 +370,10 @@ def all_algs_cases(c, rng, per_alg, with_exact=True):
             a = rng.choice(["snp", "rnp"])
             n = rng.randint(5, 9)
             cs.append({"alg": a, "vals": [rng.randint(1, 60) for _ in range(n)], "p": {"k": rng.choice([3, 4, 4, 5]) if n <= 7 else rng.choice([3, 4])}})
+    if with_exact:      # complete Karmarkar-Karp with 5-6 bins on 6-7 small repeated values: many combinations with coinciding sums, where the
+        # two managers' de-duplication of combinations (on sums / on contents) decides what is explored
+        for _ in range(max(30, 2 * per_alg)):
+            cs.append({"alg": "ckk", "vals": [rng.randint(1, rng.choice([4, 6, 10])) for _ in range(rng.randint(6, 7))], "p": {"k": rng.choice([5, 5, 6])}})
     cs += C.random_pack_cases(rng, C.PACKERS + ["bin_completion"], per_alg)
     cs += C.random_cover_cases(rng, C.COVERS, per_alg)
     return cs
@@ -917,6 +1001,14 @@ def C11(c):
     for e in C.random_part_cases(rng, ["cg"], c.n(40, 400), objs=C.OBJS5[:5], nmax=c.n(6, 8)):
         e["p"]["k"] = min(e["p"]["k"], 4)
         base.append(e)
+    # large, nearly tied values plus a few small ones: a nearly perfect partition is met before the perfect one, so a comparison
+    # with the lower bound that is tolerant instead of exact (relative 1e-5 .. 1e-9) stops the search too early
+    for _ in range(c.n(40, 300)):
+        k = rng.choice([2, 2, 3])
+        big = 10 ** rng.randint(5, 11)
+        vals = [big + rng.randint(0, 6) for _ in range(rng.choice([k, k, 2 * k]))] + [rng.randint(1, 6) for _ in range(rng.randint(2, 4))]
+        rng.shuffle(vals)
+        base.append({"alg": "cg", "vals": vals, "p": dict(rng.choice(C.SWITCHES), k=k, obj=rng.choice(C.OBJS5[:3]), cut=None)})
     cut_cases, groups = [], []
     for e in base:
         L = run_length("cg", e)
@@ -1148,8 +1240,10 @@ class OpSeq:
         return ";".join(f(o) for o in self.ops) if self.ops else "~"
 
 
-def run_ops_impl(ops, contents):
-    """run the operations on the real manager; returns the observation of EVERY array after every operation"""
+def run_ops_impl(ops, contents, scale=1):
+    """run the operations on the real manager; returns the observation of EVERY array after every operation.
+    `scale` (a power of two) multiplies every item value on the implementation's side and divides every observed sum again: float
+    arithmetic on such values is exact, so the observations must not depend on it (a manager that rounds sums does)."""
     from prtpy.binners import BinnerKeepingSums, BinnerKeepingContents
     values = {}
     bk = (BinnerKeepingContents if contents else BinnerKeepingSums)(values.__getitem__)
@@ -1157,15 +1251,15 @@ def run_ops_impl(ops, contents):
 
     def observe(a):
         if contents:
-            return {"sums": [num(x) for x in a[0]], "bins": [list(l) for l in a[1]]}
-        return {"sums": [num(x) for x in a]}
+            return {"sums": [num(x / scale) for x in a[0]], "bins": [list(l) for l in a[1]]}
+        return {"sums": [num(x / scale) for x in a]}
     for op in ops:
         k = op[0]
         try:
             if k == "new":
                 arrs.append(bk.new_bins(op[1]))
             elif k == "add":
-                values[op[2]] = op[3]
+                values[op[2]] = op[3] * scale
                 bk.add_item_to_bin(arrs[op[1]], op[2], op[4])
             elif k == "copy":
                 arrs.append(bk.copy_bins(arrs[op[1]]))
@@ -1221,10 +1315,13 @@ def C16(c):
         stream = "exhaustive" if idx < n_ex else "random"
         if isinstance(pu, dict) and "undisciplined" in pu:
             raise InfraError(f"generator produced an undisciplined sequence: {sq.line()}")
+        # item values are numbers, not only integers: some sequences run on values scaled by a power of two (exact in floats)
+        scale = (1 if idx % 3 else 2.0 ** -40) if idx < n_ex else rng.choice([1, 1, 1, 2.0 ** -40, 2.0 ** -31, 2.0 ** -10, 2.0 ** 20])
         for contents in (True, False):
-            tr, values = run_ops_impl(sq.ops, contents)
+            tr, values = run_ops_impl(sq.ops, contents, scale)
             c.evaluations += 1; c.corr_cases += 1
             c.stats[stream]["cases"] += 1
+            c.stats[stream]["value-scale:" + ("1" if scale == 1 else "2^%d" % round(__import__("math").log2(scale)))] += 1
             c.stats[stream]["ops"] += len(sq.ops)
             for o in sq.ops:
                 c.stats[stream]["op:" + o[0]] += 1
@@ -1232,7 +1329,7 @@ def C16(c):
             if len({o[0] for o in sq.ops}) >= 3:
                 c.nontrivial.add((sq.line(), contents))
             want = hp if contents else [([{"sums": a["sums"]} for a in st] if isinstance(st, list) else st) for st in hp]
-            label = {"alg": "BinnerKeepingContents" if contents else "BinnerKeepingSums", "vals": [], "ops": sq.line()}
+            label = {"alg": "BinnerKeepingContents" if contents else "BinnerKeepingSums", "vals": [], "ops": sq.line(), "value_scale": scale}
             if tr != want:
                 # first differing step
                 j = next((i for i, (x, y) in enumerate(zip(tr, want)) if x != y), min(len(tr), len(want)))
@@ -1248,7 +1345,7 @@ def C16(c):
                     ok = obs["sums"] == spec["sums"] and (not contents or obs["bins"] == spec["bins"])
                     c.check_direct(label["alg"], dict(label, handle=h), "documented-effect", ok, obs, f"the value the documented operations give: {spec}")
                     if contents:
-                        okc = obs["sums"] == [sum(values[i] for i in b) for b in obs["bins"]]
+                        okc = obs["sums"] == [num(sum(values[i] for i in b) / scale) for b in obs["bins"]]
                         c.check_direct(label["alg"], dict(label, handle=h), "inconsistent-sums", okc, obs, "every bin's sum equals the total value of its recorded items")
             elif tr and not isinstance(tr[-1], list):
                 c.check_direct(label["alg"], label, "exception:" + tr[-1]["error"], False, tr[-1], "no exception on a disciplined sequence")
@@ -1431,7 +1528,7 @@ def ilp_spec_line(sp):
 def ilp_call(sp, cap, names):
     """the real call; returns (canonical answer, captured model)"""
     from algs import objective_impl
-    items = {nm: v for nm, v in zip(names, sp["vals"])}
+    items = list(sp["vals"]) if sp.get("fmt") == "list" else {nm: v for nm, v in zip(names, sp["vals"])}
     kw = {"objective": objective_impl(sp["obj"])}
     if sp["copies_arg"] is not None:
         kw["copies"] = sp["copies_arg"]
@@ -1459,19 +1556,22 @@ def C17(c):
     from fractions import Fraction
     specs = []
 
-    def mk(k, vals, copies_arg, weights_arg, obj_, cons):
+    def mk(k, vals, copies_arg, weights_arg, obj_, cons, fmt="dict"):
         n = len(vals)
         copies = [copies_arg] * n if isinstance(copies_arg, int) else (list(copies_arg) if copies_arg is not None else [1] * n)
         weights = list(weights_arg) if weights_arg is not None else [1] * k
         return {"k": k, "vals": list(vals), "copies": copies, "weights": weights, "obj": obj_, "cons": cons,
-                "copies_arg": copies_arg, "weights_arg": weights_arg}
+                "copies_arg": copies_arg, "weights_arg": weights_arg, "fmt": fmt}
 
     for sp in corpus("C17"):
-        specs.append(mk(sp["k"], sp["vals"], sp.get("copies_arg"), sp.get("weights_arg"), sp["obj"], [tuple(x) for x in sp.get("cons", [])]))
+        specs.append(mk(sp["k"], sp["vals"], sp.get("copies_arg"), sp.get("weights_arg"), sp["obj"], [tuple(x) for x in sp.get("cons", [])], sp.get("fmt", "dict")))
     for _ in range(c.n(400, 3000)):
         k = rng.choice([1, 2, 2, 3, 3, 4])
         n = rng.randint(1, 5 if k <= 3 else 4)
         vals = [rng.choice([rng.randint(0, 9), rng.randint(1, 30), rng.randint(1, 200)]) for _ in range(n)]
+        fmt = "list" if rng.random() < 0.35 else "dict"      # plain list of values: the items ARE the values, ties included
+        if fmt == "list" and n >= 2 and rng.random() < 0.6:
+            vals[rng.randrange(1, n)] = vals[0]
         r = rng.random()
         copies_arg = None if r < 0.45 else (rng.choice([1, 2, 2]) if r < 0.7 else [rng.choice([0, 1, 1, 2]) for _ in range(n)])
         r = rng.random()
@@ -1482,7 +1582,7 @@ def C17(c):
             total = sum(v * cp for v, cp in zip(vals, [copies_arg] * n if isinstance(copies_arg, int) else (copies_arg or [1] * n)))
             guess = rng.choice([0, total // max(k, 1), total // (2 * max(k, 1)), rng.randint(0, total + 1), total, vals[0]])
             cons = [(rng.choice(["seq", "lle", "sge"]), int(guess))]
-        specs.append(mk(k, vals, copies_arg, weights_arg, o, cons))
+        specs.append(mk(k, vals, copies_arg, weights_arg, o, cons, fmt))
     lines = [ilp_spec_line(sp) for sp in specs]
     rows_m = model_query(["ilp_rows " + l for l in lines])
     opts_m = model_query(["ilp_opt " + l for l in lines])
@@ -1490,8 +1590,8 @@ def C17(c):
     with MipCapture() as cap:
         for sp, line, rm, om in zip(specs, lines, rows_m, opts_m):
             n, k = len(sp["vals"]), sp["k"]
-            names = [f"i{j}" for j in range(n)]
-            label = dict({kk_: sp[kk_] for kk_ in ("k", "vals", "obj", "cons", "copies_arg", "weights_arg")}, alg="ilp", request="ilp_opt " + line)
+            names = list(sp["vals"]) if sp["fmt"] == "list" else [f"i{j}" for j in range(n)]
+            label = dict({kk_: sp[kk_] for kk_ in ("k", "vals", "obj", "cons", "copies_arg", "weights_arg", "fmt")}, alg="ilp", request="ilp_opt " + line)
             cap.preprocess_off = False
             got, model = ilp_call(sp, cap, names)
             c.evaluations += 1; c.corr_cases += 1
@@ -1500,6 +1600,7 @@ def C17(c):
             c.stats["ilp"]["copies:" + ("default" if sp["copies_arg"] is None else "scalar" if isinstance(sp["copies_arg"], int) else "per-item")] += 1
             c.stats["ilp"]["weights:" + ("none" if sp["weights_arg"] is None else "equal" if len(set(sp["weights"])) == 1 else "unequal")] += 1
             c.stats["ilp"]["cons:" + (sp["cons"][0][0] if sp["cons"] else "none")] += 1
+            c.stats["ilp"]["items:" + sp["fmt"] + ("-with-ties" if sp["fmt"] == "list" and len(set(sp["vals"])) < n else "")] += 1
             c.distinct.add(line)
             if n >= 2 and k >= 2:
                 c.nontrivial.add(line)
@@ -1531,6 +1632,28 @@ def C17(c):
             ctx.append((sp, line, label, got, om, names))
         # (2) certified evaluation of the answers against the brute-force optimum of the formulation
         def point_of(sp, got, names):
+            if sp.get("fmt") == "list":
+                # the items are their values: equal values are indistinguishable in the answer, so the copies of a value found in each
+                # bin are attributed to the positions holding that value in order, each up to its requested number (the rest to the last)
+                left = {}
+                for b in got["bins"]:
+                    for x in b:
+                        left.setdefault(x, [0] * len(got["bins"]))
+                for x in left:
+                    left[x] = [b.count(x) for b in got["bins"]]
+                rows = []
+                for i, v in enumerate(sp["vals"]):
+                    last = v not in sp["vals"][i + 1:]
+                    have = left.get(v, [0] * len(got["bins"]))
+                    row, need = [], sp["copies"][i]
+                    for bi, cnt in enumerate(have):
+                        take = cnt if last else min(cnt, need)
+                        row.append(take); need -= min(take, need); have[bi] -= take
+                    rows.append(row)
+                stray = [x for x in left if x not in sp["vals"]]
+                if stray:
+                    rows[0] = [r_ + 1 for r_ in rows[0]] if rows else rows
+                return "|".join("[" + ",".join(str(t) for t in row) + "]" for row in rows) if rows else "~"
             return "|".join("[" + ",".join(str(b.count(nm)) for b in got["bins"]) + "]" for nm in names) if names else "~"
         for sp, line, label, got, om, names in ctx:
             if not J._is_err(got) and len(got["bins"]) == sp["k"]:
@@ -1561,7 +1684,7 @@ def C17(c):
                     verdict = ("suboptimal", f"objective {pa['docvalue']} but the optimum of the formulation is {om}")
                 elif len(set(sp["weights"])) == 1 and got["sums"] != sorted(got["sums"]):
                     verdict = ("not-ascending", f"sums {got['sums']} are not in non-decreasing order")
-                elif got["sums"] != [sum(sp["vals"][names.index(x)] for x in b) for b in got["bins"]]:
+                elif got["sums"] != [sum((x if sp["fmt"] == "list" else sp["vals"][names.index(x)]) for x in b) for b in got["bins"]]:
                     verdict = ("inconsistent-sums", "reported sums differ from the bins")
             c.stats["certified"]["evaluations"] += 1
             if verdict and verdict[0] not in ("exception:TypeError",):
@@ -1581,7 +1704,7 @@ def C17(c):
                     c.notes.append(f"solver fault (CBC preprocessing): {line} -> {got}; correct with preprocess=0")
                     verdict = None
             if verdict:
-                c.fail("ilp", {"alg": "ilp", "vals": sp["vals"], "p": label}, "dict_str", PT, verdict[0], got, verdict[1])
+                c.fail("ilp", {"alg": "ilp", "vals": sp["vals"], "p": label}, "list" if sp["fmt"] == "list" else "dict_str", PT, verdict[0], got, verdict[1])
         # (3) equal weights never change the result (optimal objective value of the raw sums)
         for sp, line, label, got, om, names in ctx[: c.n(80, 600)]:
             if sp["weights_arg"] is not None or sp["cons"]:
@@ -1896,6 +2019,15 @@ def C15(c):
         if len(vals) <= C.max_n(e["alg"]) + 2:
             pool_cases.append(dict(e, vals=vals, force_fmt="list"))
             pool_cases.append(dict(e, vals=vals))
+    # every algorithm on a plain list that is already in non-increasing / non-decreasing order (a "nothing to sort" shortcut that
+    # hands the caller's own list object to code that consumes it)
+    by_alg = {}
+    for e in pool_cases:
+        by_alg.setdefault(e["alg"], e)
+    for a, e in by_alg.items():
+        if len(e["vals"]) >= 2:
+            pool_cases.append(dict(e, vals=sorted(e["vals"], reverse=True), p=dict(e["p"]), force_fmt="list"))
+            pool_cases.append(dict(e, vals=sorted(e["vals"]), p=dict(e["p"]), force_fmt="list"))
     # sibling calls: the same items under a different bin size / bin count (state keyed on the items alone would leak between them)
     sib = []
     for e in pool_cases:
